@@ -232,8 +232,8 @@ def dataset_smiles(rng, n_per_file):
                 if idx is None:
                     idx = len(header) - 1 if "esol" in f else 0
                 for row in rd:
-                    if len(row) > idx and row[idx]:
-                        col.append(row[idx])
+                    if len(row) > idx and row[idx].strip():
+                        col.append(row[idx].strip())
             _DATASET_CACHE[f] = col
         col = _DATASET_CACHE[f]
         if col:
@@ -263,8 +263,8 @@ AROMATIC_SEEDS = [
     "c1cc[siH]cc1", "c1ccc2c(c1)[nH]c1ccccc12", "c1cc2ccc3ccc4ccc5ccc6ccc1c1c2c3c4c5c61",
     "c12c3c4c5c1c1c6c7c2c2c8c3c3c9c4c4c%10c5c5c1c1c6c6c%11c7c2c2c7c8c3c3c8c9c4c4c9c%10c5c5c1c1c6c6c%11c2c2c7c3c3c8c4c4c9c5c1c1c6c2c3c41",
 ]
-NONKEKULE = ["c1cccc1", "c1cccc1C", "c1ccc1C", "cc", "c", "c1ccccc1c", "n1cccc1", "c1cc1", "c1cccccc1",
-             "[cH]1[cH][cH][cH][cH]1", "c1ccc2cccc2c1C", "cC", "c1ccccc1-c", "o1cccc1o"]
+NONKEKULE = ["c1cccc1", "c1cccc1C", "c1cc1", "c1cccccc1", "[cH]1[cH][cH][cH][cH]1", "c1ccccc1c", "n1cccc1",
+             "c1ccc2cccc2c1C", "c1ccccc1:c"]
 
 MALFORMED_SMILES = [
     "", "(", ")", "C(", "C)", "C()", "C(C", "C1", "C11", "C12C1", "C1CC2", "C=", "C#", "=C", "-C", "C==C", "C=#C",
